@@ -233,9 +233,10 @@ def run(tier, v):
     if len(cases) < 300:
         raise vlib.MachineryError("only %d cases exported by TLC" % len(cases))
     # negative controls run beside the driver (they only need the spec); joined before the verdict
-    negs = ["Malformed_neg_swallow.cfg", "Malformed_neg_loseprefix.cfg", "Malformed_neg_spin.cfg", "Malformed_neg_noname.cfg"]
+    negs = ["Malformed_neg_swallow.cfg", "Malformed_neg_loseprefix.cfg", "Malformed_neg_spin.cfg", "Malformed_neg_noname.cfg",
+            "Malformed_neg_freerewind.cfg"]
     import concurrent.futures
-    pool = concurrent.futures.ThreadPoolExecutor(max_workers=4)
+    pool = concurrent.futures.ThreadPoolExecutor(max_workers=5)
     neg_jobs = [(neg, pool.submit(vlib.tlc, "MalformedMC", neg, deadlock=False, timeout=300, workers=2, heap="2g")) for neg in negs]
     # 2. M2 + M1: render and run every case through the real code
     b = vlib.harness_build()
@@ -258,7 +259,10 @@ def run(tier, v):
     fuzz_rows = [r_ for r_ in rows if r_["k"] == "fuzz"]
     if len(case_rows) != len(cases):
         raise vlib.MachineryError("driver returned %d case lines for %d cases" % (len(case_rows), len(cases)))
-    nontrivial = len({case_key(r_["c"]) for r_ in case_rows if r_["c"]["cls"] not in ("none", "d_none", "xpath_ok", "map_neg_index", "unknown_tag", "p_none")})
+    def control(c):
+        return c["cls"] in ("none", "d_none", "xpath_ok", "map_neg_index", "unknown_tag", "p_none") \
+            or (c["format"] == "cfg" and (c["arg"][-1] in ("same", "t_none")))
+    nontrivial = len({case_key(r_["c"]) for r_ in case_rows if not control(r_["c"])})
     obs = {}
     for r_ in case_rows:
         obs[obs_of(r_)] = obs.get(obs_of(r_), 0) + 1
